@@ -6,8 +6,15 @@
 (* the file-level histories recorded by drive.rs and predicts, after every *)
 (* operation, the exact allocation tables of the image the library wrote:  *)
 (* FAT, DIFAT, MiniFAT, every directory slot's name / type / links / start *)
-(* / size, the header counters and the number of sectors.  A mismatch is   *)
-(* printed as a DRIFT line.                                                *)
+(* / size, the header counters and the number of sectors - and every       *)
+(* slot's colour, CLSID, state bits and timestamps (mismatch kind "meta").  *)
+(* A mismatch is printed as a DRIFT line.                                  *)
+(* Histories that start from a file written by someone else (TLC-generated *)
+(* layouts of C04: any sector order, slot gaps, red-black sibling trees)   *)
+(* are followed too: the model state is then loaded from the decode of the *)
+(* start image the way open() loads it (FromImage), so the model's removal *)
+(* recolouring and its allocation out of ascending free lists are compared *)
+(* with the code on foreign trees and fragmented tables as well.           *)
 (*                                                                         *)
 (* This is NOT a property-level verdict (a maintainer may change an        *)
 (* allocation policy without breaking any property); it is what licenses   *)
@@ -26,6 +33,7 @@ Rec    == ndJsonDeserialize(IOEnv.TRACE)
 \* (the Json module also leaks one file descriptor per read)
 DictFile == JsonDeserialize(IOEnv.DICT)
 DictIn == DictFile
+Vals == JsonDeserialize(IOEnv.VALUES)
 
 PLess(a, b) == Known(a) /\ Known(b) /\ KeyLess(Units(a), Units(b))
 PEq(a, b)   == (a = b) \/ (Known(a) /\ Known(b) /\ Units(a) = Units(b))
@@ -55,6 +63,8 @@ XWriteCase(p, id, o, n)   == IF ver = 3 THEN P3!WriteCaseOf(p, id, o, n) ELSE P4
 XResizeCase(p, id, n)     == IF ver = 3 THEN P3!ResizeCaseOf(p, id, n) ELSE P4!ResizeCaseOf(p, id, n)
 XStepClass(w, p, p2)      == IF ver = 3 THEN "v3:" \o P3!StepClass(w, p, p2) ELSE "v4:" \o P4!StepClass(w, p, p2)
 KStream == 2
+KStorage == 1
+SetSlot(p, id, e) == [p EXCEPT !.slots[id + 1] = e]
 
 RECURSIVE ResolveFrom(_, _, _)
 ResolveFrom(p, cur, names) ==
@@ -94,13 +104,40 @@ RemoveAllGo(p, w, i) ==
 
 ParentOfPath(p, names) == XResolve(p, SubSeq(names, 1, Len(names) - 1))
 
+(* the stored spelling of the path to slot id (pre-order walk entries carry [id, par, name]) *)
+RECURSIVE PathOfSlot(_, _)
+PathOfSlot(w, id) ==
+  IF id = 0 THEN <<>>
+  ELSE LET x == w[CHOOSE i \in 1..Len(w) : w[i].id = id] IN PathOfSlot(w, x.par) \o <<x.name>>
+(* insert_dir_entry stamps a new storage with the clock; the reading is taken from the event's `times` (the API's  *)
+(* view after the call).  Only storages CREATED by this call are stamped: every other entry keeps what the model   *)
+(* had, so a call that disturbs another entry's metadata is a mismatch.                                            *)
+RECURSIVE StampAll(_, _, _, _)
+StampAll(p, w, ids, times) ==
+  IF ids = {} THEN p
+  ELSE LET id == CHOOSE i \in ids : TRUE
+           tm == TimeFor(times, PathOfSlot(w, id))
+       IN StampAll(SetSlot(p, id, [p.slots[id + 1] EXCEPT !.ct = tm.ct, !.mt = tm.mt]), w, ids \ {id}, times)
+StampNew(p0, p, e) ==
+  LET new == {i \in 1..(Len(p.slots) - 1) :
+                 p.slots[i + 1].kind = KStorage /\ (i >= Len(p0.slots) \/ p0.slots[i + 1].kind # KStorage \/ p0.slots[i + 1].name # p.slots[i + 1].name)}
+  IN IF new = {} \/ ~Has(e, "times") THEN p ELSE StampAll(p, WalkP(p, 0, 0), new, e.times)
+XNamePath(p, names) == [i \in 1..Len(names) |-> p.slots[XResolve(p, SubSeq(names, 1, i)) + 1].name]
+
 XApply(p, e) ==
   LET nc == IF Has(e, "p") THEN Normalize(e.p) ELSE [ok |-> TRUE, names |-> <<>>]
       names == nc.names
       id == XResolve(p, names)
+      ent == p.slots[id + 1]
   IN
-  CASE e.op = "create_storage"     -> XCreateStorage(p, ParentOfPath(p, names), names[Len(names)])
-    [] e.op = "create_storage_all" -> CsaGoP(p, names, 1)
+  CASE e.op = "create_storage"     -> StampNew(p, XCreateStorage(p, ParentOfPath(p, names), names[Len(names)]), e)
+    [] e.op = "create_storage_all" -> StampNew(p, CsaGoP(p, names, 1), e)
+    [] e.op = "set_clsid"          -> SetSlot(p, id, [ent EXCEPT !.clsid = Vals.clsid[e.v]])
+    [] e.op = "set_bits"           -> SetSlot(p, id, [ent EXCEPT !.bits = Vals.bits[e.v]])
+    [] e.op = "set_ctime"          -> IF ent.kind = KStream THEN p ELSE SetSlot(p, id, [ent EXCEPT !.ct = Vals.time[e.v].q])
+    [] e.op = "set_mtime"          -> IF ent.kind = KStream THEN p ELSE SetSlot(p, id, [ent EXCEPT !.mt = Vals.time[e.v].q])
+    [] e.op = "touch"              -> IF ent.kind = KStream \/ ~Has(e, "times") THEN p
+                                      ELSE SetSlot(p, id, [ent EXCEPT !.mt = TimeFor(e.times, XNamePath(p, names)).mt])
     [] e.op \in {"create_stream", "create_new_stream"} -> XCreateStream(p, ParentOfPath(p, names), names[Len(names)])
     [] e.op = "remove_storage"     -> XRemoveStorage(p, ParentOfPath(p, names), names[Len(names)])
     [] e.op = "remove_stream"      -> XRemoveStream(p, ParentOfPath(p, names), names[Len(names)])
@@ -125,11 +162,14 @@ XClass(p, p2, e) ==
 (* comparison of the predicted state with the raw decode of the image        *)
 SlotView(s) == <<s.name, s.kind, s.left, s.right, s.child, s.start, s.size>>
 ImgSlotView(s) == <<(IF s.type = 0 THEN "" ELSE s.name), s.type, s.left, s.right, s.child, s.start, s.size>>
+MetaView(s) == <<s.color, s.clsid, s.bits, s.ct, s.mt>>
+ImgMetaView(s) == <<s.color, s.clsid, s.bits, s.ct, s.mt>>
 Mismatches(p, img) ==
   LET n == Len(p.slots)
       slotsOK == /\ Len(img.slots) >= n
                  /\ \A i \in 1..n : SlotView(p.slots[i]) = ImgSlotView(img.slots[i])
                  /\ \A i \in (n + 1)..Len(img.slots) : img.slots[i].type = 0
+      metaOK == Len(img.slots) >= n => \A i \in 1..n : MetaView(p.slots[i]) = ImgMetaView(img.slots[i])
   IN SelectSeq(
        << <<"nsec", p.nsec = img.nsec>>,
           <<"fat", p.fat = img.fat>>,
@@ -137,22 +177,51 @@ Mismatches(p, img) ==
           <<"difat_secs", p.difatSecs = img.difat_secs>>,
           <<"minifat", p.minifat = img.minifat>>,
           <<"slots", slotsOK>>,
+          <<"meta", metaOK>>,
           <<"hdr.nfat", p.hdr.nfat = img.hdr.nfat>>,
           <<"hdr.difat", p.hdr.ndifat = img.hdr.ndifat /\ p.hdr.firstDifat = img.hdr.first_difat>>,
           <<"hdr.minifat", p.hdr.nminifat = img.hdr.nminifat /\ p.hdr.firstMinifat = img.hdr.first_minifat>>,
           <<"hdr.dir", p.hdr.ndir = img.hdr.ndir /\ p.dirStart = img.hdr.first_dir>> >>,
        LAMBDA c : ~c[2])
 
-Init == q = <<>> /\ ver = 0 /\ l = 1 /\ skip = TRUE /\ TLCSet(41, 0)
+(* What open() loads from an image (lib.rs open_internal, directory.rs, minialloc.rs): the FAT padded / cut to   *)
+(* the number of sectors, ascending free lists, every slot of the directory chain, the MiniFAT without its       *)
+(* trailing free entries; an empty stream has no chain whatever its start field says.  Used for files written by *)
+(* someone else; only images are loaded whose mini stream is exactly as long as its MiniFAT (the model's own     *)
+(* invariant; a longer container is legal but its handling is not transcribed).                                  *)
+FreeIdx(t) == SelectSeq([i \in 1..Len(t) |-> i - 1], LAMBDA x : t[x + 1] = -1)
+FromSlot(s, v) ==
+  IF s.type = 0 THEN P3!Unalloc
+  ELSE LET size == IF s.type = KStorage THEN 0 ELSE IF v = 3 THEN s.size3 ELSE s.size IN
+       [name |-> s.name, kind |-> s.type, left |-> s.left, right |-> s.right, child |-> s.child,
+        start |-> IF s.type = KStorage THEN 0 ELSE IF s.type = KStream /\ size = 0 THEN -2 ELSE s.start, size |-> size,
+        color |-> s.color, clsid |-> s.clsid, bits |-> s.bits, ct |-> s.ct, mt |-> s.mt]
+FromImage(img, v) ==
+  LET fat == [i \in 1..img.nsec |-> IF i <= Len(img.fat) THEN img.fat[i] ELSE -1] IN
+  [nsec |-> img.nsec, fat |-> fat, free |-> FreeIdx(fat), difat |-> img.hdr.difat \o img.difat_ext, difatSecs |-> img.difat_secs,
+   slots |-> [i \in 1..Len(img.slots) |-> FromSlot(img.slots[i], v)], dirStart |-> img.hdr.first_dir,
+   minifat |-> img.minifat, minifatStart |-> img.hdr.first_minifat, freeMini |-> FreeIdx(img.minifat),
+   hdr |-> [nfat |-> img.hdr.nfat, firstDifat |-> img.hdr.first_difat, ndifat |-> img.hdr.ndifat,
+            firstMinifat |-> img.hdr.first_minifat, nminifat |-> img.hdr.nminifat, ndir |-> img.hdr.ndir],
+   data |-> <<>>]
+Loadable(e) ==
+  /\ Has(e, "img") /\ ~e.img.short /\ e.img.geometry /\ ~Has(e, "expect") /\ ~Has(e, "surplus")
+  /\ Len(e.img.slots) > 0 /\ e.img.slots[1].type = 5
+  /\ (IF e.ver = 3 THEN e.img.slots[1].size3 ELSE e.img.slots[1].size) = 64 * Len(e.img.minifat)
+
+Init == q = <<>> /\ ver = 0 /\ l = 1 /\ skip = TRUE /\ TLCSet(41, 0) /\ TLCSet(46, 0)
 
 Step ==
   /\ l <= Len(Rec)
   /\ LET e == Rec[l] IN
      IF e.ev = "reset"
      THEN (* only histories that start from a fresh file with the default buffer size are followed *)
-          LET follow == e.res.k = "ok" /\ ~Has(e, "tree") /\ e.ver \in {3, 4} IN
+          LET fresh == e.res.k = "ok" /\ ~Has(e, "tree") /\ e.ver \in {3, 4}
+              foreign == e.res.k = "ok" /\ Has(e, "tree") /\ e.ver \in {3, 4} /\ Loadable(e)
+              follow == fresh \/ foreign IN
           /\ ver' = IF follow THEN e.ver ELSE 0
-          /\ q' = IF follow THEN XFresh(e.ver) ELSE <<>>
+          /\ q' = IF fresh THEN XFresh(e.ver) ELSE IF foreign THEN FromImage(e.img, e.ver) ELSE <<>>
+          /\ (IF foreign THEN TLCSet(46, TLCGet(46) + 1) ELSE TRUE)
           /\ skip' = ~follow
      ELSE IF skip \/ e.res.k = "panic" THEN UNCHANGED <<q, ver, skip>>
      ELSE IF Has(e, "h") /\ e.h # ""
@@ -170,6 +239,6 @@ Step ==
 Next == Step
 Spec == Init /\ [][Next]_vars
 Consumed == IF TLCGet("stats").diameter = Len(Rec) + 1
-            THEN PrintT(<<"COMPARED", TLCGet(41)>>)
+            THEN PrintT(<<"COMPARED", TLCGet(41)>>) /\ PrintT(<<"FOREIGN", TLCGet(46)>>)
             ELSE PrintT(<<"STUCK", TLCGet("stats").diameter, Len(Rec)>>) /\ FALSE
 =============================================================================
